@@ -3,6 +3,7 @@
 set -e
 cd "$(dirname "$0")/.."
 export CARGO_NET_OFFLINE=true
+export CARGO_TARGET_DIR="$(pwd)/target"
 mkdir -p work evidence
 python3 tools/gen_consts.py || true
 ( cd coq && coq_makefile -f _CoqProject $(find theories -name '*.v' | sort) -o Makefile >/dev/null 2>&1 )
